@@ -218,7 +218,8 @@ def main(argv):
         print(f"[{PID}] level {lvl}: {len(cands)} candidates t={time.time() - run.t0:.0f}s", file=sys.stderr)
         run.bounds[f"level{lvl}_candidates"] = len(cands)
         new = run_level(
-            cands, U, envs, PID, run, run.seed, extra_check=restr_check, compare=False, sample_every=sample_every, ill_typed_hook=double_hook
+            cands, U, envs, PID, run, run.seed, extra_check=restr_check, compare=False, sample_every=sample_every, ill_typed_hook=double_hook,
+            check_undefined=True,
         )
         sts, _ = dedup(new, seen, lvl, run)
         return sts
@@ -240,6 +241,9 @@ def main(argv):
         for b in names:
             for op in ("add", "mul", "div", "dot", "inner", "max_value", "lt"):
                 c.append((op, ("t", a), ("t", b)))
+    # reference values of form arguments (what the integrand holds after apply_function_pullbacks): restricted and not
+    for a in ("fH", "fD", "wH", "r", "u"):
+        c.append(("refval", ("t", a)))
     l1 = level(c, 1, sample_every=30)
     conds = [s for s in l1 if s.cond]
     c = []
@@ -302,7 +306,7 @@ def main(argv):
     if run.smoke:
         cands3 = cands3[:: max(1, len(cands3) // 60)]
     run.bounds["manifold_candidates"] = len(cands3)
-    new3 = run_level(cands3, U3, envs3, PID, run, run.seed, extra_check=restr_check, compare=False, ill_typed_hook=double_hook)
+    new3 = run_level(cands3, U3, envs3, PID, run, run.seed, extra_check=restr_check, compare=False, ill_typed_hook=double_hook, check_undefined=True)
     m3, _ = dedup(new3, seen3, 1, run)
     run.bounds["manifold_states"] = len(m3)
     run.bounds.update(
@@ -331,11 +335,11 @@ def replay(run, U, envs):
 
     recipe = tup(rp["witness"]["recipe"])
     part = Part()
-    check_recipe(recipe, U, envs, part, PID, extra_check=restr_check, compare=False, ill_typed_hook=double_hook)
+    check_recipe(recipe, U, envs, part, PID, extra_check=restr_check, compare=False, ill_typed_hook=double_hook, check_undefined=True)
     # the same recipe on the immersed manifold universe
     U3 = universe(3)
     envs3 = EV.interior_facet_envs("triangle", 3, facets=[0, 1], perms=[None])
-    check_recipe(recipe, U3, envs3, part, PID, extra_check=restr_check, compare=False, ill_typed_hook=double_hook)
+    check_recipe(recipe, U3, envs3, part, PID, extra_check=restr_check, compare=False, ill_typed_hook=double_hook, check_undefined=True)
     run.merge(part.dict())
     run.states = 1
     run.finish()
